@@ -62,8 +62,10 @@ def rnd_config(rng, selfips=None, deny=None, logger=None, level=None, n4=2, n6=2
     d = None
     if deny is True or (deny is None and rng.random() < 0.3):
         d = [rnd_ip4(rng) for _ in range(rng.randrange(1, 3))] + [rnd_ip6(rng) for _ in range(rng.randrange(1, 3))]
+    # half of the configurations with a list have it written the way real lists are (file and / or inline, with junk entries)
+    noise = rng.getrandbits(30) if (s or d) and rng.random() < 0.5 else None
     return Config(mac, s, d, rnd_key(rng), rng.choice("ncl") if logger is None else logger,
-                  rng.randrange(6) if level is None else level)
+                  rng.randrange(6) if level is None else level, noise=noise)
 
 
 def all_log_configs():
